@@ -281,7 +281,7 @@ func dedupSchema(d *xDoc) (removed []string) {
 
 func main() {
 	c := vk.Init("C12")
-	c.Rule("programs = schemas run through cmd/fixgen built from the working tree: the two shipped schemas (source/fix44.xml; generator/testdata/fix.4.4.xml with its deliberate duplicate removed) and schemas derived by a seeded mutator (remove/reorder/add/rename/renumber members and fields, remove messages, toggle required, change a type's cast, introduce duplicate field numbers or message types, add a repeating group at nesting depth 3; six fixed cast changes that cover Raw and Time), each with a relative, nested or absolute output directory. Per accepted schema three stages: (1) go build of the emitted package; (2) every constant, constructor signature, accessor signature, accessor item index and member list read back with go/parser and compared with the harness's own XML reader; (3) a behavioural driver derived from the XML (not from the emitted code) executed against the compiled package: each setter puts exactly its own tag=value on the wire, getters return it, all-populated wire order = schema order, populating constructors carry exactly the required members, group AddEntry/Entries round-trip, BeginString/MsgType. Plus byte-identical regeneration (also 24 generations of a schema in which two components declare a group of the same name with different members), identical output across output directories (also when the generator is used as a library and one parsed schema object is generated from three times), rejection of duplicate numbers/msgtypes, and tests/fix44 vs fresh generation as declaration multisets. distinct = distinct schema texts; non-trivial = differs from a shipped schema by at least one mutation")
+	c.Rule("programs = schemas run through cmd/fixgen built from the working tree: the two shipped schemas (source/fix44.xml; generator/testdata/fix.4.4.xml with its deliberate duplicate removed) and schemas derived by a seeded mutator (remove/reorder/add/rename/renumber members and fields, remove messages, toggle required, change a type's cast, introduce duplicate field numbers or message types, add a repeating group at nesting depth 3; six fixed cast changes that cover Raw and Time), each with a relative, nested or absolute output directory. Per accepted schema three stages: (1) go build of the emitted package; (2) every constant, constructor signature, accessor signature, accessor item index and member list read back with go/parser and compared with the harness's own XML reader; (3) a behavioural driver derived from the XML (not from the emitted code) executed against the compiled package: each setter puts exactly its own tag=value on the wire, getters return it, all-populated wire order = schema order, populating constructors carry exactly the required members, group AddEntry/Entries round-trip, BeginString/MsgType. Plus byte-identical regeneration (also into a directory that already holds the reference generation, with a schema that shortens files; also 24 generations of a schema in which two components declare a group of the same name with different members), identical output across output directories (also when the generator is used as a library and one parsed schema object is generated from three times), rejection of duplicate numbers/msgtypes, and tests/fix44 vs fresh generation as declaration multisets. distinct = distinct schema texts; non-trivial = differs from a shipped schema by at least one mutation")
 	c.Assume("translation validation by execution on sampled schemas; the harness's XML reader and type-mapping reader are the trusted base; mutations never touch the fields the session pipelines' typed interfaces depend on")
 	work := c.WorkDir
 	if work == "" {
@@ -562,6 +562,46 @@ func main() {
 							c.Violate("C12/output-differs-between-runs-or-directories/shared-group-name", fmt.Sprintf("a schema in which InstrumentLeg and UnderlyingStipulations both declare group NoUnderlyingStips (with different members): generation #0 and #%d differ: %s", k, firstDiff(outs[0], outs[k])), nil)
 							break
 						}
+					}
+				}
+			}
+		}
+	}
+	// regeneration into a directory that already holds an earlier generation: a schema that makes some files shorter
+	// (one optional member removed from every message that has one) must give, file by file, what it gives in a
+	// fresh directory. Files only the earlier generation produced are leftovers and not judged.
+	if len(bases) > 0 {
+		d, tm, to := clone(bases[0])
+		removed := 0
+		for _, msg := range d.Messages {
+			for k := len(msg.Kids) - 1; k >= 0; k-- {
+				if msg.Kids[k].XMLName.Local == "field" && msg.Kids[k].Required != "Y" && len(msg.Kids) > 2 {
+					msg.Kids = append(msg.Kids[:k], msg.Kids[k+1:]...)
+					removed++
+					break
+				}
+			}
+		}
+		rdir := filepath.Join(det, "regen")
+		os.MkdirAll(rdir, 0o755)
+		rschema, rtypes := filepath.Join(rdir, "schema.xml"), filepath.Join(rdir, "types.xml")
+		used, fresh := filepath.Join(rdir, "used", "fix44"), filepath.Join(rdir, "fresh", "fix44")
+		if err := writeDoc(d, rschema); err == nil && removed > 0 {
+			writeTypes(tm, to, rtypes)
+			_, e1 := run(rdir, fixgen, "-o", used, "-t", typesP, "-s", schema) // the reference schema first
+			o2, e2 := run(rdir, fixgen, "-o", used, "-t", rtypes, "-s", rschema)
+			o3, e3 := run(rdir, fixgen, "-o", fresh, "-t", rtypes, "-s", rschema)
+			c.Count("disagreements_checked", 1)
+			c.Count("regenerations_into_a_used_directory", 1)
+			if e1 != nil || e2 != nil || e3 != nil {
+				c.Violate("C12/generator-failed-on-valid-schema/regeneration", "regenerating into a used directory failed: "+vk.Trunc(o2+o3, 600), nil)
+			} else {
+				fu, _ := readDir(used)
+				ff, _ := readDir(fresh)
+				for name, want := range ff {
+					if fu[name] != want {
+						c.Violate("C12/output-differs-between-runs-or-directories/used-directory", fmt.Sprintf("a schema with %d optional members removed, generated into a directory that held the reference generation, differs from its generation into a fresh directory: %s", removed, firstDiff(map[string]string{name: want}, map[string]string{name: fu[name]})), nil)
+						break
 					}
 				}
 			}
